@@ -1,6 +1,7 @@
 package main
 
 import (
+	"os"
 	"fmt"
 	"go/token"
 	"go/types"
@@ -271,6 +272,7 @@ func c06Frozen(w *World, r *Report, eff *Effects) {
 	frozen := map[string]bool{"Machine": true, "Inst": true, "Symbol": true}
 	counts := map[string]int{}
 	bad := 0
+	w.SSA()
 	for _, pk := range w.All {
 		key := strings.TrimPrefix(strings.TrimPrefix(pk.PkgPath, modPath), "/")
 		sp := w.ssaPkgs[key]
@@ -306,6 +308,9 @@ func c06Frozen(w *World, r *Report, eff *Effects) {
 					}
 					counts[target]++
 					rs := eff.rootsOf(base)
+					if os.Getenv("YV_DEBUG") != "" {
+						fmt.Printf("DEBUG R06.1 %s in %s: fresh=%v params=%d frees=%d globals=%d\n", target, funcKey(fn), rs.fresh, len(rs.params), len(rs.frees), len(rs.globals))
+					}
 					fresh := rs.fresh && len(rs.params) == 0 && len(rs.frees) == 0 && len(rs.globals) == 0
 					// append's internal element store: `append(prog, i)` shows up as a call, not a store
 					if !fresh {
@@ -321,6 +326,10 @@ func c06Frozen(w *World, r *Report, eff *Effects) {
 		ks = append(ks, fmt.Sprintf("%s:%d", k, v))
 	}
 	sort.Strings(ks)
+	if len(counts) == 0 {
+		// the constructors do store into fresh values: seeing none means nothing was looked at
+		r.Fail("R06.1", "stores looked at", token.NoPos, "no store to a Machine, Inst or Symbol field was seen at all: the rule would pass vacuously")
+	}
 	if bad == 0 {
 		for _, n := range []string{"Machine", "Inst", "Symbol"} {
 			r.OK("R06.1", n+" field stores", token.NoPos, "only on fresh values in constructors ["+strings.Join(ks, " ")+"]")
